@@ -79,6 +79,18 @@ def _judge(ctx: Ctx, jobs, results):
     return lines
 
 
+def _apalache_update(ctx: Ctx):
+    # unbounded in the length of behaviours: an inductive invariant of the code's variant, discharged by Apalache for 6 threads
+    obligations = (("Init", "IndInv", 0, "NoError"), ("IndInit", "IndInv", 1, "NoError"), ("IndInit", "Safety", 0, "NoError"),
+                   ("TypeInit", "Safety", 0, "Error"))      # the last one must fail: Safety does not follow from typing alone
+    res = {f"{i}=>{v}@{n}": tlc.run_apalache(AREA, "ApaUpdate", init=i, inv=v, length=n, tmp=ctx.tmp) for i, v, n, _ in obligations}
+    ctx.notes["apalache_update_protocol_inductive_invariant"] = res
+    if "unavailable" not in res.values():
+        for (i, v, n, want) in obligations:
+            if res[f"{i}=>{v}@{n}"] != want:
+                raise tlc.MachineryError(f"ApaUpdate: obligation {i} => {v} (length {n}) gave {res[f'{i}=>{v}@{n}']}, expected {want}")
+
+
 def run(ctx: Ctx):
     q = ctx.quick
     ctx.rule = ("case = (map of 1-5 rules with pairwise distinct literal first segment per domain part, built from literals that need quoting, "
@@ -134,15 +146,7 @@ def run(ctx: Ctx):
         if not r.invariant_violated:
             raise tlc.MachineryError(f"{cfg}: the update protocol variant no longer violates the invariants (vacuity)")
     if not q:
-        # unbounded in the length of behaviours: an inductive invariant of the code's variant, discharged by Apalache for 6 threads
-        obligations = (("Init", "IndInv", 0, "NoError"), ("IndInit", "IndInv", 1, "NoError"), ("IndInit", "Safety", 0, "NoError"),
-                       ("TypeInit", "Safety", 0, "Error"))      # the last one must fail: Safety does not follow from typing alone
-        res = {f"{i}=>{v}@{n}": tlc.run_apalache(AREA, "ApaUpdate", init=i, inv=v, length=n, tmp=ctx.tmp) for i, v, n, _ in obligations}
-        ctx.notes["apalache_update_protocol_inductive_invariant"] = res
-        if "unavailable" not in res.values():
-            for (i, v, n, want) in obligations:
-                if res[f"{i}=>{v}@{n}"] != want:
-                    raise tlc.MachineryError(f"ApaUpdate: obligation {i} => {v} (length {n}) gave {res[f'{i}=>{v}@{n}']}, expected {want}")
+        _apalache_update(ctx)
     exported = [v for cfg in (("MCBuild_x" if q else "MCBuild_xt"), "MCBuild_xd", "MCBuild_xg", "MCBuild_xp", "MCBuild_xs")
                 for v in ctx.export(AREA, "MCBuild", cfg, count_states=False, timeout=3000) if isinstance(v, dict) and "map" in v]
     ctx.notes["model_cases_exported"] = len(exported)
